@@ -235,9 +235,38 @@ class Prog:
         go(self.items, self.crate)
         return ";".join(sorted(recs))
 
+    def resolved_digest(self):
+        """Resolved counters per registered benchmark: own options over the innermost group over the outer groups, per kind."""
+        self.source()
+        recs = []
+
+        def counts_of(o):
+            c = {}
+            for (_, kind, v) in ((o or {}).get("counters") or []):
+                c[kind] = v
+            return c
+
+        def go(items, modpath, above):
+            for it in items:
+                if it["k"] == "F":
+                    if it.get("rows") == "empty" or (isinstance(it.get("rows"), list) and not any(it["rows"])):
+                        continue
+                    res = {}
+                    for c in [counts_of(it.get("opts"))] + above:
+                        for k, v in c.items():
+                            res.setdefault(k, v)
+                    recs.append("%s~%s~%d=%s" % (enc(modpath), enc(it["raw"]), it["line"], ".".join(str(res.get(k, "-")) for k in COUNTER_KINDS)))
+                elif it["k"] == "M":
+                    g = it.get("group")
+                    go(it["items"], modpath + "::" + self.spell(it["raw"]), ([counts_of(g.get("opts"))] if g is not None else []) + above)
+                else:
+                    go(it["items"], modpath, above)
+        go(self.items, self.crate, [])
+        return ";".join(sorted(recs))
+
     def line(self, acts, exe, ign="n", exact=False, pos=(), skip=(), sort="-", threads=()):
         cfg = ",".join(["C", acts, ign, "e" if exact else "r", lst(pos), lst(skip), sort] + ([lst(threads)] if threads else []))
-        extra = ["O," + enc(self.digest())] if "O" in acts else []
+        extra = (["O," + enc(self.digest())] if "O" in acts else []) + (["V," + enc(self.resolved_digest())] if "V" in acts else [])
         return " ".join([cfg, "X," + enc(exe)] + extra + self.tokens())
 
     # ---- the real crate ----
@@ -496,6 +525,40 @@ pub mod support {
         };
         format!("{}~{}~{}={}", enc(m.module_path), enc(m.raw_name), m.location.line, rec)
     }
+    /// Resolved counters of every benchmark: its own options over the innermost bench_group over the outer ones,
+    /// folded with the crate's own `BenchOptions::overwrite` (through the `__verif` wrapper).
+    fn fold_opts(chain: &[&divan::__private::BenchOptions<'static>], k: &dyn Fn(&divan::__private::BenchOptions) -> String) -> String {
+        match chain {
+            [] => k(&Default::default()),
+            [x] => k(x),
+            [x, rest @ ..] => fold_opts(rest, &|r| { let o = divan::__verif::options_overwrite(x, r); k(&o) }),
+        }
+    }
+    fn strip_r(s: &str) -> &str { s.strip_prefix("r#").unwrap_or(s) }
+    pub fn resolved_dump() {
+        use divan::__private::{BENCH_ENTRIES, GROUP_ENTRIES};
+        let groups: Vec<&divan::__private::GroupEntry> = GROUP_ENTRIES.iter().filter(|g| g.generic_benches.is_none()).collect();
+        let mut metas: Vec<&divan::__private::EntryMeta> = BENCH_ENTRIES.iter().map(|e| &e.meta).collect();
+        metas.extend(GROUP_ENTRIES.iter().filter(|g| g.generic_benches.map(|r| r.iter().any(|row| !row.is_empty())).unwrap_or(false)).map(|g| &g.meta));
+        let mut recs = Vec::new();
+        for m in metas {
+            let comps: Vec<&str> = m.module_path.split("::").collect();
+            // groups above, innermost first
+            let mut above: Vec<(usize, &divan::__private::GroupEntry)> = groups.iter().filter_map(|g| {
+                let gc: Vec<&str> = g.meta.module_path.split("::").collect();
+                let n = gc.len();
+                if comps.len() > n && comps[..n] == gc[..] && strip_r(comps[n]) == strip_r(g.meta.raw_name) { Some((n, *g)) } else { None }
+            }).collect();
+            above.sort_by(|a, b| b.0.cmp(&a.0));
+            let mut chain: Vec<&divan::__private::BenchOptions<'static>> = Vec::new();
+            if let Some(o) = m.bench_options.as_deref() { chain.push(o); }
+            for (_, g) in &above { if let Some(o) = g.meta.bench_options.as_deref() { chain.push(o); } }
+            let counts = fold_opts(&chain, &|o| (0..4u8).map(|k| match divan::__verif::options_counter(o, k) { Some(n) => n.to_string(), None => "-".into() }).collect::<Vec<_>>().join("."));
+            recs.push(format!("{}~{}~{}={}", enc(m.module_path), enc(m.raw_name), m.location.line, counts));
+        }
+        recs.sort();
+        println!("{}", recs.join(";"));
+    }
     pub fn optdump() {
         use divan::__private::{BENCH_ENTRIES, GROUP_ENTRIES};
         let mut recs: Vec<String> = BENCH_ENTRIES.iter().map(|e| opt_digest(&e.meta)).collect();
@@ -520,6 +583,7 @@ pub mod support {
             }
             "dump" => dump(),
             "optdump" => optdump(),
+            "resolved" => resolved_dump(),
             other => panic!("HX_API {other}"),
         });
         use std::io::Write;
@@ -785,6 +849,16 @@ def feature_tour(crate):
         F("cnt_and_more", opts=dict(counters=[("field", "items", 9)], sample_count=4)),
         M("g_cnt", [F("below_cnt")], group=dict(opts=dict(counters=[("field", "bytes", 64)]))),
         M("g_cnt2", [F("below_cnt2")], group=dict(name="Counted", opts=dict(counters=[("counter", "cycles", 11)]))),
+        # counters resolved over two group levels, with sets that are not a prefix of [bytes, chars, cycles, items]
+        M("cg_outer", [F("items5", opts=dict(counters=[("field", "items", 5)])),
+                       F("cg_plain"),
+                       M("cg_inner", [F("cyc2", opts=dict(counters=[("field", "cycles", 2)])),
+                                      F("cg_none"),
+                                      F("cg_gen", types=[0, 1], opts=dict(counters=[("counter", "items", 4)])),
+                                      F("cg_all", opts=dict(counters=[("counters", "bytes", 1), ("counters", "chars", 2), ("counters", "cycles", 3), ("counters", "items", 4)]))],
+                         group=dict(opts=dict(counters=[("counters", "chars", 3), ("counters", "items", 9)])))],
+          group=dict(opts=dict(sample_count=10, counters=[("field", "bytes", 7)]))),
+        M("cg_cycles", [F("under_cycles", opts=dict(counters=[("field", "chars", 6)]))], group=dict(opts=dict(counters=[("field", "cycles", 8)]))),
         # `threads` present but empty: on a function, inherited from a group, as an empty range
         F("thr_empty", opts=dict(threads_empty=True)),
         F("thr_empty_args", opts=dict(threads_empty=True), args=("arr_i", [5, 6])),
